@@ -8,6 +8,13 @@ Open Scope Z_scope.
 Lemma valid_wf s : Valid s -> wf s.
 Proof. intros (tip & (Hwf & _) & _). exact Hwf. Qed.
 
+(* the invariant of EVERY reachable store, zero-work headers included (ChainFields.reachable_inv) *)
+Definition InvSome (s : store) : Prop := exists tip, Inv s tip.
+Lemma valid_inv s : Valid s -> InvSome s.
+Proof. intros (tip & HI & _). exists tip. exact HI. Qed.
+Lemma inv_wf s : InvSome s -> wf s.
+Proof. intros (tip & Hwf & _). exact Hwf. Qed.
+
 Lemma by_hash_self s r : NoDup (ids s) -> In r s -> by_hash s (id r) = Some r.
 Proof.
   intros Hnd Hr. destruct (by_hash s (id r)) as [x|] eqn:E.
@@ -96,13 +103,14 @@ Proof.
     exfalso. apply HnL. apply (L_parent_L s tip c r HI Hc E Hr Hp).
 Qed.
 
-(* tips = the Longest tip + every Stale/Orphan row without a stored child *)
-Theorem tips_spec s : Valid s ->
-  exists t, tipB s = Some t /\ st t = Longest /\ best s = Some t /\
+(* tips = the Longest tip + every Stale/Orphan row without a stored child; needs only Inv (any work) *)
+Theorem tips_spec_inv s tip : Inv s tip ->
+  exists t, tipB s = Some t /\ by_hash s tip = Some t /\ st t = Longest /\
     forall r, In r (tips s) <-> r = t \/ (In r s /\ st r <> Longest /\ ~ has_child s r).
 Proof.
-  intros HV. destruct (valid_tip s HV) as (t & Ht & HtL & _ & Htin & Hbest).
-  destruct HV as (tip & HI & _).
+  intros HI. pose proof HI as (_ & (t & Htip & _) & _).
+  pose proof (tipB_is_tip s tip HI) as Ht. rewrite Htip in Ht.
+  destruct (tip_is_L s tip t HI Htip) as [Htin HtL].
   exists t. repeat split; try assumption.
   - unfold tips. rewrite Ht. intros Hin. apply in_app_or in Hin. destruct Hin as [[<-|[]]|Hin]; [left; reflexivity|].
     apply filter_In in Hin. destruct Hin as [Hr Hb]. apply in_rev in Hr. apply andb_prop in Hb. destruct Hb as [H1 H2].
@@ -115,6 +123,14 @@ Proof.
     + unfold is_L. destruct (st_eqb (st r) Longest) eqn:E; [|reflexivity]. apply st_eqb_eq in E. contradiction.
     + destruct (has_nonL_child s r) eqn:E; [|reflexivity]. exfalso. apply Hnc.
       apply (has_nonL_child_iff s tip r HI Hr HnL). exact E.
+Qed.
+
+Theorem tips_spec s : Valid s ->
+  exists t, tipB s = Some t /\ st t = Longest /\ best s = Some t /\
+    forall r, In r (tips s) <-> r = t \/ (In r s /\ st r <> Longest /\ ~ has_child s r).
+Proof.
+  intros (tip & HI & Hb). destruct (tips_spec_inv s tip HI) as (t & H1 & H2 & H3 & H4).
+  exists t. repeat split; try assumption; [congruence| apply H4| apply H4].
 Qed.
 
 (* ================================================================== walks and reachability *)
@@ -280,20 +296,34 @@ Proof.
 Qed.
 
 (* ================================================================== single-row reads *)
-Theorem lookup_spec s t : Valid s ->
+Theorem lookup_spec_wf s t : wf s ->
   (forall r, get_by_hash s t = Some r <-> In r s /\ id r = t) /\ (get_by_hash s t = None <-> ~ In t (ids s)).
 Proof.
-  intros HV. pose proof (wf_nodup s (valid_wf s HV)) as Hnd. unfold get_by_hash. split.
+  intros Hwf. pose proof (wf_nodup s Hwf) as Hnd. unfold get_by_hash. split.
   - intros r. split; [apply by_hash_in|]. intros [Hr <-]. apply by_hash_self; assumption.
   - split; [apply by_hash_none|]. intros Hn. destruct (by_hash s t) as [x|] eqn:E; [|reflexivity].
     exfalso. apply Hn. destruct (by_hash_in _ _ _ E) as [Hx <-]. apply in_map. exact Hx.
+Qed.
+
+Theorem lookup_spec s t : Valid s ->
+  (forall r, get_by_hash s t = Some r <-> In r s /\ id r = t) /\ (get_by_hash s t = None <-> ~ In t (ids s)).
+Proof. intros HV. apply lookup_spec_wf, valid_wf, HV. Qed.
+
+(* tip/longest reports the tip of the invariant: the Longest row above every other Longest row (any work) *)
+Theorem tip_longest_inv s tip : Inv s tip ->
+  exists t, tip_longest s = Some t /\ by_hash s tip = Some t /\ In t s /\ st t = Longest /\
+            (forall r, In r s -> st r = Longest -> r = t \/ height r < height t).
+Proof.
+  intros HI. pose proof HI as (_ & (t & Htip & _) & _).
+  destruct (tip_is_L s tip t HI Htip) as [Hin HL].
+  exists t. unfold tip_longest. rewrite (tipB_is_tip s tip HI). repeat split; try assumption.
+  intros r Hr HrL. apply (tip_height_max s tip t HI Htip r Hr HrL).
 Qed.
 
 Theorem tip_longest_spec s : Valid s ->
   exists t, tip_longest s = Some t /\ In t s /\ st t = Longest /\ best s = Some t /\
             (forall r, In r s -> st r = Longest -> r = t \/ height r < height t).
 Proof.
-  intros HV. destruct (valid_tip s HV) as (t & Ht & HL & _ & Hin & Hb). destruct HV as (tip & HI & _).
-  exists t. unfold tip_longest. repeat split; try assumption.
-  intros r Hr HrL. rewrite (tipB_is_tip s tip HI) in Ht. apply (tip_height_max s tip t HI Ht r Hr HrL).
+  intros (tip & HI & Hb). destruct (tip_longest_inv s tip HI) as (t & H1 & H2 & H3 & H4 & H5).
+  exists t. repeat split; try assumption. congruence.
 Qed.
